@@ -188,9 +188,6 @@ def handleGen (op : String) (args : List String) : Option String :=
     -- attributes.ParseEfivars and its FSWrapper twin on a reader holding `h`, with the Stat size `sz`
     let bs := unhex h
     let size : Int := sz.toInt?.getD 0
-    -- size < 4: the attribute read comes first; after it `make([]byte, size-4)` has a negative length
-    -- (a run-time panic that the list translation does not show: the theorems assume 4 ≤ size)
-    if size < 4 then some (if bs.length < 4 then "err" else "panic") else
     let show1 := fun (r : List UInt8 × attributes.Attributes × List UInt8 × GoErr) =>
       if r.2.2.2.isNone then s!"ok attrs={r.2.1.toNat} value={hex r.2.2.1} rest={r.1.length}" else "err"
     let a := show1 (attributes.ParseEfivars bs size)
